@@ -46,7 +46,7 @@ SIG = {
     'pad16': 'bytes', 'zeros': 'bytes', 'gcm_h': 'bytes', 'gcm_j0': 'bytes', 'inc32': 'bytes', 'gcm_s_input': 'bytes',
     'gcm_tag': 'bytes', 'ctr_limit': 'int', 'be4': 'int[nat]',
     'cp_mac_input': 'bytes', 'cp_s_input': 'bytes', 'cp_otk': 'bytes', 'nonce12': 'bytes',
-    'dbl': 'bytes', 'omac_k1': 'bytes', 'omac_k2': 'bytes', 'omac': 'bytes', 'omac_max': 'int', 'eax_omac': 'bytes', 'rb': 'int', 'bx': 'bytes',
+    'dbl': 'bytes', 'omac_k1': 'bytes', 'omac_k2': 'bytes', 'omac': 'bytes', 'omac_parts': 'bytes', 'omac_max': 'int', 'eax_omac': 'bytes', 'rb': 'int', 'bx': 'bytes',
 }
 
 
@@ -186,6 +186,24 @@ def bx(a, b, n):
     return bxor(a, b, n)
 
 
+def lemma_xor_ac16(a, b, c):
+    """(a xor b) xor c == a xor (c xor b) on 16-byte blocks (associativity + commutativity of the bytewise xor)"""
+    return implies(len(a) == 16 and len(b) == 16 and len(c) == 16, bx(bx(a, b, 16), c, 16) == bx(a, bx(c, b, 16), 16))
+
+
+def lemma_xor_ac8(a, b, c):
+    return implies(len(a) == 8 and len(b) == 8 and len(c) == 8, bx(bx(a, b, 8), c, 8) == bx(a, bx(c, b, 8), 8))
+
+
+def lemma_xor_zero16(a):
+    """0^128 xor a == a"""
+    return implies(len(a) == 16, bx(rep(b'\x00', 16), a, 16) == a)
+
+
+def lemma_xor_zero8(a):
+    return implies(len(a) == 8, bx(rep(b'\x00', 8), a, 8) == a)
+
+
 def rb(bs):
     """5.3: R_128 = 0^120 10000111, R_64 = 0^59 11011"""
     if bs == 16:
@@ -211,17 +229,34 @@ def omac_k2(fid, key, bs):
 
 
 def omac(fid, key, m, bs, tlen):
-    """6.2: n = 1 if Mlen = 0 else ceil(Mlen / b); M = M_1 .. M_{n-1} || M_n*; M_n = K1 xor M_n* if M_n* is a complete
-    block, else K2 xor (M_n* || 1 0^j); C_0 = 0^b, C_i = CIPH_K(C_{i-1} xor M_i); T = MSB_Tlen(C_n).
-    C_{n-1} is the CBC chaining value of M_1 .. M_{n-1}."""
+    """6.2 steps 2-3: n = 1 if Mlen = 0 else ceil(Mlen / b); M = M_1 .. M_{n-1} || M_n* with the M_i complete blocks:
+    split M after its last block boundary into the whole blocks and the incomplete rest (possibly empty)"""
     r = len(m) % bs
-    if len(m) > 0 and r == 0:
-        head = m[:len(m) - bs]
-        last = bx(omac_k1(fid, key, bs), m[len(m) - bs:], bs)
+    return omac_parts(fid, key, m[:len(m) - r], m[len(m) - r:], bs, tlen)
+
+
+def omac_parts(fid, key, blocks, rest, bs, tlen):
+    """6.2 steps 4-7 for M = blocks || rest (blocks: whole blocks, rest shorter than a block): if M_n* is a complete block
+    (rest empty, at least one block) M_n = K1 xor M_n*, else M_n = K2 xor (M_n* || 1 0^j); C_0 = 0^b,
+    C_i = CIPH_K(C_{i-1} xor M_i); T = MSB_Tlen(C_n).  C_{n-1} is the CBC chaining value of M_1 .. M_{n-1}."""
+    if len(rest) == 0 and len(blocks) > 0:
+        head = blocks[:len(blocks) - bs]
+        last = bx(omac_k1(fid, key, bs), blocks[len(blocks) - bs:], bs)
     else:
-        head = m[:len(m) - r]
-        last = bx(omac_k2(fid, key, bs), m[len(m) - r:] + b'\x80' + rep(b'\x00', bs - r - 1), bs)
+        head = blocks
+        last = bx(omac_k2(fid, key, bs), rest + b'\x80' + rep(b'\x00', bs - len(rest) - 1), bs)
     return E(fid, key, bx(cbc_chain(fid, key, rep(b'\x00', bs), head), last, bs))[:tlen]
+
+
+def lemma_omac_split16(fid, key, blocks, rest, tlen):
+    """the split of omac() finds exactly (blocks, rest)"""
+    return implies(len(blocks) % 16 == 0 and len(rest) < 16,
+                   omac(fid, key, blocks + rest, 16, tlen) == omac_parts(fid, key, blocks, rest, 16, tlen))
+
+
+def lemma_omac_split8(fid, key, blocks, rest, tlen):
+    return implies(len(blocks) % 8 == 0 and len(rest) < 8,
+                   omac(fid, key, blocks + rest, 8, tlen) == omac_parts(fid, key, blocks, rest, 8, tlen))
 
 
 def omac_max(bs):
